@@ -4,13 +4,17 @@ unless asked), runs the owning property's quick check against it and records whe
 import os, re, sys, json, subprocess, time
 VERIF = os.path.dirname(os.path.dirname(os.path.abspath(__file__)))
 REPO = os.environ.get("VERIF_REPO", "/repo")
-only = [a for a in sys.argv[1:] if not a.startswith("--")]
+LIST = "list.txt"; OUT = "results.json"
+args = sys.argv[1:]
+if "--list" in args:
+    k = args.index("--list"); LIST = args[k + 1]; OUT = "results_" + os.path.splitext(LIST)[0] + ".json"; del args[k:k + 2]
+only = [a for a in args if not a.startswith("--")]
 skip_done = "--resume" in sys.argv
 res = []
-if skip_done and os.path.exists(os.path.join(VERIF, "mutants", "results.json")):
-    res = json.load(open(os.path.join(VERIF, "mutants", "results.json")))
+if skip_done and os.path.exists(os.path.join(VERIF, "mutants", OUT)):
+    res = json.load(open(os.path.join(VERIF, "mutants", OUT)))
 done = {(r["property"], r["mutant"]) for r in res if r["status"] in ("killed", "survived")}
-for line in open(os.path.join(VERIF, "mutants", "list.txt")):
+for line in open(os.path.join(VERIF, "mutants", LIST)):
     line = line.rstrip("\n")
     if not line or line.startswith("#"): continue
     prop, f, pat, rep, desc = [x.strip(" ") for x in line.split(" @@ ", 4)]
@@ -35,4 +39,4 @@ for line in open(os.path.join(VERIF, "mutants", "list.txt")):
         open(path, "w").write(src)
     res.append({"property": prop, "mutant": desc, "status": status, "first": first, "wall_s": round(time.time() - t0)})
     print(status.upper(), prop, desc, "(%ds)" % (time.time() - t0), flush=True)
-    json.dump(res, open(os.path.join(VERIF, "mutants", "results.json"), "w"), indent=1)
+    json.dump(res, open(os.path.join(VERIF, "mutants", OUT), "w"), indent=1)
